@@ -43,7 +43,7 @@ class Outcome:
 
 def run_one(P, case):
     from .world import execute, cleanup
-    record = execute(case)
+    record = execute(case, setup=getattr(P, "setup", None))
     out = Outcome()
     try:
         out.violations = P.check(record)
@@ -225,7 +225,7 @@ def replay(prop_id, path, quiet=False):
     runner = getattr(P, "run_case", None)
     if not quiet and runner is None:
         from .world import execute, cleanup
-        record = execute(case)
+        record = execute(case, setup=getattr(P, "setup", None))
         print(json.dumps(case, sort_keys=True))
         for event in record.trace:
             print("  ", event)
